@@ -702,6 +702,11 @@ func (b *Builder) UnBounded(o interface{}, x bool) {
 
 func (b *Builder) Default(o interface{}, defaultVal string) {
 	if h, valid := o.(HasDefault); valid {
+		if _, single := o.(HasDefaultValue); single && h.HasDefault() {
+			// a second default on a leaf, typedef or choice used to panic in addDefault
+			b.setErr(fmt.Errorf("%T - default already set", o))
+			return
+		}
 		h.addDefault(defaultVal)
 	} else {
 		b.setErr(fmt.Errorf("%T does not support default", o))
